@@ -127,7 +127,10 @@ def wake(rng):
             k += 1
     g.emit("task producer")
     for _ in range(rng.range(1, 3)):
-        g.emit("sleep %d" % rng.choice([1000, 500000, 1000000, 3000000]))
+        if rng.chance(1, 3):
+            g.emit("yield %d" % rng.range(0, 4))       # race with the consumers' check-then-wait step
+        else:
+            g.emit("sleep %d" % rng.choice([1000, 500000, 1000000, 3000000]))
         kind = rng.below(4)
         if kind <= 1:
             g.emit("pub %s %s" % (hx(t), jl(_payload(rng, "m") for _ in range(rng.choice([1, 2, 3, 6])))))
@@ -284,7 +287,42 @@ def cancel(rng):
     return g.lines
 
 
-PROFILES = {"mix": mix, "wake": wake, "delete": delete, "burst": burst, "cancel": cancel}
+def swallow(rng):
+    """C06 corner: a consumer that has been woken is abandoned while its next pull request waits for
+    room in a full subscription mailbox; another consumer keeps waiting."""
+    g = ConcGen(rng, caps=(1, 1, 2))
+    g.setup(1, 1, dls=(10,))
+    s = sorted(g.subs)[0]
+    t = g.topics[0]
+    g.emit("task victim")
+    g.emit("dropat%d %d pull %s 1 0" % (rng.range(0, 12), rng.choice([1000, 1000, 2000]), hx(s)))
+    g.emit("task waiter")
+    if rng.chance(1, 2):
+        g.emit("yield %d" % rng.range(1, 4))
+    g.emit("pull %s 1 0" % hx(s))
+    for i in range(rng.choice([2, 4, 8, 20])):
+        g.emit("task f%d" % i)
+        g.emit("sleep %d" % rng.choice([1000, 1000, 2000]))
+        if rng.chance(1, 2):
+            g.emit("yield %d" % rng.range(1, 4))
+        for _ in range(rng.range(1, 3)):
+            g.emit(rng.choice(["stats " + hx(s), "gsub " + hx(s), "ack %s %s" % (hx(s), hx("99"))]))
+    g.emit("task producer")
+    g.emit("sleep %d" % rng.choice([1000, 1000, 2000]))
+    if rng.chance(1, 2):
+        g.emit("yield %d" % rng.range(1, 4))
+    g.emit("pub %s %s" % (hx(t), _payload(rng, "one")))
+    g.emit("task probe")
+    g.emit("sleep 3000")
+    g.emit("probe " + hx(s))
+    g.emit("sleep 5000000")
+    g.emit("probe " + hx(s))
+    g.emit("go")
+    g.epilogue()
+    return g.lines
+
+
+PROFILES = {"swallow": swallow, "mix": mix, "wake": wake, "delete": delete, "burst": burst, "cancel": cancel}
 
 
 def cases(rng, profile, n):
